@@ -1,11 +1,13 @@
 import ChiDriver.Common
 import ChiModel.MechConfig
+import ChiModel.MechCanonical
 /-!
 line-protocol ops of C11
 
-* `C11.run  base legacy ops` → `[errs, obs-after-every-step]`   (the hidden-state machine)
+* `C11.run  base legacy ops` → `[errs, obs-after-every-step]`   (the hidden-state machine; `legacy = u`
+                                 is the code as it is, `t` the machine before bcb3fc2)
 * `C11.spec base ops`        → `[errs, obs of fresh (net prefix) for every prefix, final config,
-                                 WellOrdered ops]`
+                                 WellOrdered ops, canonical calls of the net configuration, Canon]`
 
 `base = [pkpd, comps, states, consts, inters, others]`,
 `op   = [adm comp var direct] | [reg i] | [out names] | [pn pairs] | [on pairs] | [sens on names?]
@@ -90,11 +92,22 @@ def cfgV (c : Config) : Val :=
                                            optV (fun v => .list (v.map srcV)) r.values,
                                            .bool r.emptySens]) c.red]
 
+def opV : MOp → Val
+  | .setAdmin a => .list [.str "adm", .str a.comp, .str a.var, .bool a.direct]
+  | .setRegimen r => .list [.str "reg", natV r]
+  | .setOutputs outs => .list [.str "out", ofStrs outs]
+  | .setParamNames l => .list [.str "pn", pairsV l]
+  | .setOutputNames l => .list [.str "on", pairsV l]
+  | .enableSens on names => .list [.str "sens", .bool on, optV ofStrs names]
+  | .wrap => .list [.str "wrap"]
+  | .fix d => .list [.str "fix", .list (d.map (fun p => .list [.str p.1, optV natV p.2]))]
+  | .copy => .list [.str "copy"]
+
 /-- trace of the hidden-state machine -/
 def trace (b : Base) (legacy : Bool) : Obj → List MOp → List (Val × Val)
   | _, [] => []
   | o, op :: ops =>
-    let (o', e) := step b legacy o op
+    let (o', e) := if legacy then stepLegacy b o op else step b o op
     (errV e, obsV (observe b o')) :: trace b legacy o' ops
 
 def traceCfg (b : Base) : Config → List MOp → List (Val × Val)
@@ -118,7 +131,9 @@ def specOp : ChiDriver.Op
     let tr := traceCfg b (initCfg b) ops
     some [.list (tr.map Prod.fst),
           .list (obsV (observe b (fresh b (initCfg b))) :: tr.map Prod.snd),
-          cfgV (net b (initCfg b) ops), .bool (decide (WellOrdered ops))]
+          cfgV (net b (initCfg b) ops), .bool (decide (WellOrdered ops)),
+          .list ((canonical b (net b (initCfg b) ops)).map opV),
+          .bool (decide (Canon b (net b (initCfg b) ops)))]
   | _ => none
 
 def ops : List (String × ChiDriver.Op) := [("C11.run", runOp), ("C11.spec", specOp)]
